@@ -185,7 +185,7 @@ def rand_op(rng, s):
 
 def fmt_op(op, srcs):
     c, a = op
-    if c <= 10:
+    if c <= 10 or c == 14:
         return "[ %d %d ]" % (c, a)
     if c in (11, 12):
         return "[ %d %s ]" % (c, vlib.hx(a))
@@ -280,6 +280,14 @@ def gen(rng, tier):
     dom = in_domain([c.line for c in out])
     assert all(dom), "generator produced a deciding case outside the hypotheses of C03_history: " + out[dom.index(False)].line[:300]
     fid = fidelity(rng, quick, [pk[i] for i in range(min(len(pk), 200))])
+    # aliasing: SetAdaptationField with the packet itself as the source, inside otherwise well-formed histories
+    # (compared strictly; the recogniser does not classify code 14, so these stay fidelity cases)
+    for pi in range(0, min(len(plans), 400 if quick else 4000), 2):
+        kind, s0, ops, nt = plans[pi]
+        if kind != "random-history": break
+        ops2 = list(ops); ops2.insert(rng.randrange(len(ops2) + 1), (14, 0))
+        fid.append(Case(hist_line(pk[pi], ops2, srcs), kind="fidelity-self-copy", decides=False, nontrivial=False,
+                        theorem="C03_step_refines (OSetAF p)"))
     for c, inside in zip(fid, in_domain([c.line for c in fid])):
         if inside:   # e.g. an untouched start with in-range arguments: the theorem decides it after all
             c.kind = "fidelity-inside-domain"; c.decides = True; c.theorem = "C03_history"
